@@ -64,7 +64,18 @@ for (const h of job.histories || []) {
     const rw = new main.Rewriter({})
     const steps = []
     for (const s of h.steps) {
-      const r = rw.rewrite(s.code, s.file)
+      let r
+      if (s.fault === 'map-cache-throws') {
+        // the module-level cache of rewritten maps is a Map: make storing this file's map fail, once
+        const set = Map.prototype.set
+        Map.prototype.set = function (k, v) {
+          if (k === s.file && this !== undefined && !(this instanceof WeakMap)) { Map.prototype.set = set; throw new Error('verif: injected source-map cache failure') }
+          return set.call(this, k, v)
+        }
+        try { r = rw.rewrite(s.code, s.file) } finally { Map.prototype.set = set }
+      } else {
+        r = rw.rewrite(s.code, s.file)
+      }
       const looks = (s.lookups || []).map(([l, c]) => smIndex.getSourcePathAndLineFromSourceMaps(s.file, l, c))
       steps.push({ status: r.metrics && r.metrics.status, sameText: r.content === s.code, looks })
     }
